@@ -59,6 +59,9 @@ fn concrete(kind: &str, wellformed: bool, variant: usize, local_port: u16) -> Co
             let greeting = [vec![5u8, 1, 0], vec![5, 2, 0, 2], vec![5, 3, 2, 1, 0]][variant % 3].clone();
             let mut req = vec![5u8, 1, 0];
             let target;
+            // domain, IPv4, and IPv6 in the shapes a well-meant "normalisation" would touch: loopback, unspecified,
+            // IPv4-compatible, IPv4-mapped - the tunnel goes to exactly the address named, whatever its shape
+            const V6: [&str; 6] = ["2001:db8::7", "::1", "::", "::10.9.8.7", "::ffff:10.9.8.7", "fe80::1"];
             match variant % 3 {
                 0 => {
                     req.push(3);
@@ -73,9 +76,9 @@ fn concrete(kind: &str, wellformed: bool, variant: usize, local_port: u16) -> Co
                 }
                 _ => {
                     req.push(4);
-                    let ip: std::net::Ipv6Addr = "2001:db8::7".parse().unwrap();
+                    let ip: std::net::Ipv6Addr = V6[(variant / 3) % V6.len()].parse().unwrap();
                     req.extend_from_slice(&ip.octets());
-                    target = format!("[2001:db8::7]:{port}");
+                    target = format!("[{ip}]:{port}");
                 }
             }
             req.extend_from_slice(&port.to_be_bytes());
